@@ -331,7 +331,8 @@ def check(ctx):
     from . import binding
     binding.r_tags(ctx, 'R06.7', arms_only=True)
     from . import c03
-    c03.r_binders(ctx, 'R06.10')   # insert_variable's expect("Stack is empty") relies on a scope pushed before the binder is inserted   # Match::scrutinee_type's unreachable!() relies on the normalised arm order
+    c03.r_binders(ctx, 'R06.10')
+    c04.group_rule(ctx, 'R06.11', r'^ast::Scope::\w+(::\{closure#\d+\})*$', 'scope mutators: the state discipline their assertions rely on (is_main set and reset, stack pushed before use)', 10)   # insert_variable's expect("Stack is empty") relies on a scope pushed before the binder is inserted   # Match::scrutinee_type's unreachable!() relies on the normalised arm order
     r_shape_selftest(ctx)
     n = panic_rule(ctx, 'R06.1')
     ctx.floor('R06.1', 'panic-capable sites in reachable functions', n[0], 200)
